@@ -164,6 +164,24 @@ fn judge_prop(n: usize, points: usize, s: &mut Sink) {
             let st = prop_stats(&iv, n, level, &grid, &pmfs);
             let case = json!({"check":"proportion","n":n,"kind":kind,"level":level,"points":points});
             let slack = PROP_POINT[kidx(kind)][li];
+            // sharper, n-specific form of the same criterion: the shortfall of the textbook
+            // method at this very n (computed by the oracle from its own formula), +25 % + 0.002
+            let om = prop_stats(&oracle_prop_intervals(n, kind, level), n, level, &grid, &pmfs);
+            let slack_n = (1.25 * (-om.min_dev).max(0.0) + 0.002).min(slack);
+            if !(st.min_dev >= -slack_n) {
+                s.violation(
+                    format!("proportion/pointwise-coverage-below-method-slack-at-n/{}/{}", kind.name(), level),
+                    format!("n={n} {} {level}: exact coverage at p={} is {:.5}; the Wilson method itself bottoms out at {:.5} for this n (slack {slack_n:.4})", kind.name(), st.min_at, level + st.min_dev, level + om.min_dev),
+                    json!({"check":"proportion","n":n,"kind":kind,"level":level,"points":points}),
+                );
+            }
+            if !((st.mean_dev - om.mean_dev).abs() <= 0.0004) {
+                s.violation(
+                    format!("proportion/average-coverage-differs-from-method-at-n/{}/{}", kind.name(), level),
+                    format!("n={n} {} {level}: mean exact coverage {:.5}, the Wilson method gives {:.5}", kind.name(), level + st.mean_dev, level + om.mean_dev),
+                    json!({"check":"proportion","n":n,"kind":kind,"level":level,"points":points}),
+                );
+            }
             s.max(&format!("prop_pointwise_shortfall_over_slack[{}]", kind.name()), -st.min_dev / slack, || format!("n={n} L={level} p={}", st.min_at));
             s.max(&format!("prop_avg_dev_over_slack[{}]", kind.name()), st.mean_dev.abs() / PROP_AVG[kidx(kind)][li], || format!("n={n} L={level}"));
             s.outcome(&("prop", n, kind, li, (st.min_dev * 1e6) as i64));
